@@ -93,7 +93,9 @@ def run(ctx):
         if f.path == "lang::line::RenumVisitor<'a>::line":
             continue  # its f64 -> u16 cast has its own bounds (0..=65529): C14.c
         n_c += rule_c(ctx, f)
-    ctx.floor("C08.c", "range-guarded casts", n_c, 9)
+    # 9 on the pinned tree; the per-type arms of one conversion can be merged into one cast
+    # without changing behaviour, so the floor is one cast per conversion impl
+    ctx.floor("C08.c", "range-guarded casts", n_c, 5)
     rule_d(ctx)
     common.selftest(ctx, "C08.a", ["neg_i16", "add_i16", "abs_i16", "wrapping_i16"], rule_a)
     common.selftest(ctx, "C08.c", ["float_cast"], rule_c)
@@ -454,16 +456,35 @@ def rule_c(ctx, f):
         src = f.describe(rv["op"])
         lows, highs = BOUNDS[to]
         lo = hi = False
+        nan_lo = nan_hi = False
+        # a float comparison that is FALSE says nothing about NaN (`!(x < 0.0)` holds for NaN,
+        # and `NaN as usize` is 0): for float sources only the affirmative forms bound the value,
+        # unless NaN is excluded separately
+        not_nan = (not is_f2i) or any(
+            c[0] == "eq" and c[2] is False and re.search(r"::is_nan\(", str(c[1]))
+            for c in f.conds_at(b)) or any(
+            c[0] == "eq" and c[2] is True and re.search(r"::is_finite\(", str(c[1]))
+            for c in f.conds_at(b))
         for op, l, r, truth in f.cmp_conds_at(b):
             if not f.same_origin(l, rv["op"]):
                 continue
             bound = f.describe(r)
-            if any(x in bound for x in lows) and ((op == "Ge" and truth) or
-                                                  (op == "Lt" and not truth)):
-                lo = True
-            if any(x in bound for x in highs) and ((op == "Le" and truth) or
-                                                   (op == "Gt" and not truth)):
-                hi = True
+            if any(x in bound for x in lows):
+                if op == "Ge" and truth or (op == "Lt" and not truth and not_nan):
+                    lo = True
+                elif op == "Lt" and not truth:
+                    nan_lo = True
+            if any(x in bound for x in highs):
+                if op == "Le" and truth or (op == "Gt" and not truth and not_nan):
+                    hi = True
+                elif op == "Gt" and not truth:
+                    nan_hi = True
+        if (nan_lo and not lo) or (nan_hi and not hi):
+            ctx.bad("C08.c", key, st["span"],
+                    "cast %s of `%s` is guarded by a NEGATED float comparison only (`!(x < lo)` / "
+                    "`!(x > hi)`): NaN passes both (0/0, SQR(-1)) and is cast to 0 instead of "
+                    "raising OVERFLOW" % (tag, src))
+            continue
         # the same two tests written as `(MIN as f..=MAX as f).contains(&x)`
         if not (lo and hi):
             rng = _contains_range(f, b, rv["op"])
